@@ -20,6 +20,21 @@ type Env struct {
 	Syncs     int
 	// CacheViolations accumulates cache-mutation findings (C17 part 1).
 	CacheViolations []string
+	// OGStyle: how healthy children report status.observedGeneration:
+	// 0 = their generation, 1 = not at all, 2 = as a string, 3 = constant 0.
+	OGStyle int
+}
+
+func (e *Env) healthyOG(gen any) (any, bool) {
+	switch e.OGStyle {
+	case 1:
+		return nil, false
+	case 2:
+		return fmt.Sprint(gen), true
+	case 3:
+		return int64(0), true
+	}
+	return gen, gen != nil
 }
 
 // NewEnv builds the world, installs the hook program, builds the controller
